@@ -31,6 +31,12 @@ RULE = ("cases = scenario templates over a catalogue of 44 class specifications 
         "optionally one flag of one field flipped) whose eq/order keys, converters, validators, factories, defaults, repr "
         "callables and hooks all differ and are tagged with their class, under 24 argument sets with and without a "
         "generated __hash__, with one shared or two separate decorator objects, histories AB / ABA / ABB / AAB; "
+        "(0b) SIBLINGS: B0(P) plain, A(P) with class options (kw_only, field_transformer, eq/order/hash/frozen/init/repr "
+        "flags), target B(P) plain, for ONE attrs base object P one or two levels deep (4 two-level base kinds), through "
+        "define / mutable / frozen / attr.s(collect_by_mro=True) / legacy attr.s, B0 re-fingerprinted at the end; "
+        "(0c) POOL: user objects (attr.Converter with takes_self/takes_field, pipe/optional results, attr.Factory, "
+        "and_/or_ validator objects, eq-key/repr callables) wandering over DIFFERENT field names from class to class "
+        "while the other names carry other converters; "
         "(5) shared counting attrs (also re-declared base fields) with @ca.validator/@ca.default between definitions; (6) fields over shared "
         "argument containers with appends between definitions; (7) random mixtures with histories up to 6 steps. "
         "non-trivial = the history contains at least one definition that succeeded; distinct = distinct JSON case")
@@ -51,7 +57,9 @@ ASSUMPTIONS = [
     "behaviour-neutral (the property's anchor: per-decorator configuration must not change between applications)",
     "T1: the leak parameter of the model is read off the source syntactically (nonlocal/global declarations in closures "
     "nested in attrs()/define(); `x = attrs` in make_class); state kept elsewhere is only seen by the correspondence",
-    "base classes of the catalogue are at most one level deep and are built with their own fresh decorators",
+    "base classes come from 12 fixed kinds (one or two attrs levels), built per universe with their own fresh decorators and "
+    "shared by all classes of a history; which pool object / key / repr callable / factory style / field_transformer a "
+    "field or decorator uses is harness-only variation the model is independent of (it only sees conv / nValid / hasDefault)",
 ]
 EXHAUSTIVE = {"quick": False, "thorough": False}
 BUDGET_S = {"quick": 30, "thorough": 400}
@@ -79,11 +87,15 @@ LEVEL_TEXT = (
     "is tied to /repo by the differential correspondence only; the deep behaviour fingerprint, the identity-level container "
     "snapshots around every definition, the re-fingerprinting of earlier classes and bases, and the closure-cell identity "
     "check and the ownership check of every callable a class holds or runs (foreignFree) are observed at runtime, not proved. Bounds of the correspondence: catalogue of 44 class specs plus random "
-    "bodies, bases one level deep, histories <= 6 steps, <= 3 decorator objects; process-global state is only seen when it "
+    "bodies, bases one or two levels deep (12 fixed kinds), histories <= 6 steps, <= 3 decorator objects; process-global state is only seen when it "
     "is keyed by something of the class or trips within one case (the erased universe runs first, under other class names).")
 
 HOOKS = ["n", "noOp", "convert", "validate", "custom", "list"]
-BASES = ["object", "plain", "frozenDefine", "frozenAttrS", "hookedDefine", "mutableDefine", "mutableAttrS", "exc"]
+BASES = ["object", "plain", "frozenDefine", "frozenAttrS", "hookedDefine", "mutableDefine", "mutableAttrS", "exc",
+         "deepDefine", "deepFrozen", "deepHooked", "deepAttrS"]
+ATTRS_BASES = ["frozenDefine", "frozenAttrS", "hookedDefine", "mutableDefine", "mutableAttrS",
+               "deepDefine", "deepFrozen", "deepHooked", "deepAttrS"]
+POOL_SIZES = {"conv": 6, "factory": 2, "valid": 3, "eqKey": 2, "reprFn": 2}
 NO_OWN = {"ownHash": "absent", "ownEq": False, "ownLt": False, "ownInit": False, "ownRepr": False, "ownSetattr": False}
 
 
@@ -561,7 +573,123 @@ def t_twin(rng):
     return scenario(decos, steps, defDeco(idx[(len(seq) - 1) % 3], seq[-1]), cas=[CA()], tpl="twin")
 
 
-TEMPLATES = [t_triple, t_twin, t_these, t_mk, t_twin, t_ca, t_lists, t_mix]
+def t_pool(rng):
+    """user OBJECTS (attr.Converter instances with takes_self/takes_field, pipe/optional results, attr.Factory
+    objects, and_/or_ validator objects, eq-key and repr callables) used by several classes under DIFFERENT field
+    names, while the later class also has a field with the earlier name carrying something else"""
+    names = ["x", "y", "z"][:rng.choice([2, 2, 3])]
+    n_cls = rng.choice([2, 2, 3, 4])
+    k0 = rng.randrange(POOL_SIZES["conv"])          # the converter object that wanders over the field names
+
+    def body(ci):
+        fields = []
+        wander = names[ci % len(names)]
+        for i, n in enumerate(names):
+            pool = {}
+            conv, nvalid = False, 0
+            if n == wander:
+                pool["conv"], conv = k0, True
+            else:
+                r = rng.random()
+                if r < 0.45:
+                    conv = True                                   # its own converter
+                elif r < 0.7:
+                    pool["conv"], conv = rng.randrange(POOL_SIZES["conv"]), True
+            r = rng.random()
+            if r < 0.3:
+                pool["valid"] = rng.randrange(POOL_SIZES["valid"])
+                nvalid = W.POOL_NVALID[pool["valid"]]
+            elif r < 0.5:
+                nvalid = 1
+            for k in ("eqKey", "reprFn"):
+                if rng.random() < 0.3:
+                    pool[k] = rng.randrange(POOL_SIZES[k])
+            default = False
+            x = {}
+            if i == len(names) - 1 and rng.random() < 0.5:
+                default = True
+                if rng.random() < 0.6:
+                    pool["factory"] = rng.randrange(POOL_SIZES["factory"])
+                else:
+                    x["factory"] = "kw"
+            if rng.random() < 0.2:
+                x["eqKey"] = True
+            if pool:
+                x["pool"] = pool
+            fields.append(F(n, rng.random() < 0.8, "inline", default=default, conv=conv, nValid=nvalid,
+                            hook=rng.choice(["n", "n", "n", "custom", "convert"]), x=x))
+        c = C(fields, base=rng.choice(["object", "object", "object", "mutableAttrS", "deepDefine"]))
+        c["x"] = {"name": rng.choice(["C", "D"]), "variant": ci % 3, "fieldApi": rng.choice(["ib", "field"])}
+        return c
+
+    d = copy.deepcopy(rng.choice(TWIN_DECOS))
+    decos = [d] if rng.random() < 0.5 else [d, copy.deepcopy(rng.choice(TWIN_DECOS))]
+    seq = [defDeco(rng.randrange(len(decos)), body(i)) for i in range(n_cls)]
+    return scenario(decos, seq[:-1], seq[-1], cas=[CA()], tpl="pool")
+
+
+SIBLING_OPTS = [dict(kwOnly=True), dict(kwOnly=True), dict(kwOnly=True, slots=False), dict(eq="f"), dict(order="t"),
+                dict(hash="t"), dict(frozen=True), dict(init="f"), dict(repr="f"), dict(onSetattr="custom"),
+                dict(cacheHash=True, hash="t"), dict(kwOnly=True, frozen=True), dict(x={"ft": True}),
+                dict(kwOnly=True, x={"ft": True}), dict(autoDetect=False)]
+
+
+def t_siblings(rng):
+    """sibling subclasses of ONE attrs base object (one or two levels deep): B0(P) plain, A(P) with class options
+    (kw_only, field_transformer, eq/order/hash/frozen flags...), then the target B(P) plain again; B0 is
+    re-fingerprinted at the end.  MRO-collecting front ends and the legacy one."""
+    base = rng.choice(ATTRS_BASES)
+    fam = rng.choice(["define", "define", "mutable", "frozen", "attrsMro", "attrsMro", "attrs"])
+
+    def deco(opts):
+        o = copy.deepcopy(opts)
+        x = o.pop("x", {})
+        if fam in ("define", "mutable"):
+            a = A("define", **o)
+            if fam == "mutable":
+                x["alias"] = "mutable"
+        elif fam == "frozen":
+            o.pop("frozen", None)
+            if o.get("onSetattr"):
+                o.pop("onSetattr")
+            a = A("frozen", **o)
+        else:
+            a = A("attrS", **o)
+            x["collect_by_mro"] = fam == "attrsMro"
+            if rng.random() < 0.5:
+                a["autoDetect"] = a["autoDetect"] if a["autoDetect"] is not None else True
+        if x:
+            a["x"] = x
+        return a if _args_ok(a) else A("define")
+
+    plain, opt = deco({}), deco(rng.choice(SIBLING_OPTS))
+    decos = [plain, opt, deco(rng.choice(SIBLING_OPTS))]
+
+    def body(name):
+        r = rng.random()
+        if r < 0.25:
+            fields = []
+        elif r < 0.5:
+            fields = [F("x", fam != "attrs" and rng.random() < 0.8, default=rng.random() < 0.4)]
+        elif r < 0.75:
+            fields = [F("x", True, conv=rng.random() < 0.5, nValid=rng.choice([0, 1])), F("y", True, default=True)]
+        else:
+            fields = [F("b", True, conv=True), F("x", True, default=rng.random() < 0.3)]      # re-declares a base field
+        if fam in ("attrs", "attrsMro"):
+            for f in fields:
+                f["annotated"] = rng.random() < 0.3
+        c = C(fields, base=base)
+        c["x"] = {"name": name, "fieldApi": rng.choice(["ib", "field"])}
+        return c
+
+    shape = rng.choice(["0A", "0A", "A", "0AA", "A0", "00A"])
+    steps = []
+    for i, ch in enumerate(shape):
+        steps.append(defDeco(0 if ch == "0" else rng.choice([1, 1, 2]), body("S%d" % i if rng.random() < 0.6 else "S")))
+    return scenario(decos, steps, defDeco(0, body("S")), cas=[CA()], tpl="siblings")
+
+
+TEMPLATES = [t_triple, t_twin, t_siblings, t_these, t_pool, t_mk, t_twin, t_siblings, t_ca, t_pool, t_lists, t_mix]
 
 
 def _fix_catalogue_for_case(case):
@@ -571,13 +699,13 @@ def _fix_catalogue_for_case(case):
 
 def gen_cases(tier, rng):
     # 0. layout twins first (library-global state keyed by field layout needs no shared decorator or container)
-    for _ in range(400 if tier == "quick" else 20000):
-        yield t_twin(rng)
+    for i in range(900 if tier == "quick" else 30000):
+        yield (t_twin, t_siblings, t_pool)[i % 3](rng)
     # 1. every (decorator, A) of the catalogue through one shared decorator object, B from the sensitive set
     if tier == "quick":
         order = [(d, a) for d in DECO_NAMES for a in CAT]
         rng.shuffle(order)
-        for d, a in order:
+        for d, a in order[:950]:
             for b in (rng.choice(SENSITIVE_B), rng.choice(CAT)):
                 yield t_pair(rng, d, a, b)
     else:
@@ -586,7 +714,7 @@ def gen_cases(tier, rng):
                 for b in CAT:
                     yield t_pair(rng, d, a, b)
     # 2. one of each other template, round robin, until the budget is used
-    n = 3000 if tier == "quick" else 400000
+    n = 2200 if tier == "quick" else 400000
     for i in range(n):
         yield TEMPLATES[i % len(TEMPLATES)](rng)
 
@@ -633,7 +761,10 @@ def _observe(case):
     wa = W.World(case, "a")
     after, deep_a, hist, made, snaps_ok = _run(wa, case["steps"], case["target"], erase=False)
     again = [(W.deep_of(c, wa.allowed_of(c)), d) for c, d in made]
-    bases_again = [(W.deep_of(wa.bases[k], wa.allowed_of(wa.bases[k])), fp) for k, fp in wa.base_fp.items()]
+    def _b(k):
+        return wa.roots[k[5:]] if k.startswith("root:") else wa.bases[k]
+
+    bases_again = [(W.deep_of(_b(k), wa.allowed_of(_b(k))), fp) for k, fp in wa.base_fp.items()]
     earlier = all(x == d for x, d in again + bases_again)
     # no class of either universe ever holds or runs a callable of another class (of any universe, of any case)
     fps = [deep_a, deep_b] + [x for x, _ in again + bases_again] + [d for _, d in again + bases_again] + list(wb.base_fp.values())
